@@ -20,6 +20,7 @@ const (
 
 // ClassifyWazero maps an error returned by api.Function.Call to a trap class.
 func ClassifyWazero(msg string) string {
+	msg = firstLine(msg)
 	switch {
 	case strings.Contains(msg, "integer divide by zero"):
 		return TrapDivZero
@@ -134,7 +135,7 @@ func RunWazero(u *Unit, wasm []byte, config string) (out []Outcome, err error) {
 			nInst++
 			nHost = 0
 			trace = trace[:0]
-			mod, instErr = rt.InstantiateModule(ctx, compiled, wazero.NewModuleConfig().WithName(fmt.Sprintf("u%d", nInst)))
+			mod, instErr = rt.InstantiateModule(ctx, compiled, wazero.NewModuleConfig().WithStartFunctions().WithName(fmt.Sprintf("u%d", nInst)))
 			if instErr != nil {
 				mod = nil
 			}
